@@ -21,6 +21,14 @@ type gossipAnchors struct {
 	leftKey, compactKey                         string
 	ok                                          bool
 	missing                                     string
+	depth                                       int
+}
+
+func commonNameOfFn(f *ssa.Function) string {
+	if f.Object() != nil {
+		return f.Object().(*types.Func).FullName()
+	}
+	return f.String()
 }
 
 func newGossipAnchors(p *Prog) *gossipAnchors {
@@ -189,6 +197,44 @@ func (g *gossipAnchors) rootClass(root ssa.Value, at ssa.Instruction, fs *Facts)
 		switch x := v.(type) {
 		case *ssa.Alloc:
 			return "fresh", "allocated here"
+		case *ssa.Parameter:
+			// helper taking the state object: classify at every call site
+			fn := x.Parent()
+			idx := -1
+			for i, pp := range fn.Params {
+				if pp == x {
+					idx = i
+				}
+			}
+			if idx < 0 || g.depth > 2 {
+				return "unknown", "state object passed as a parameter (summary depth exceeded)"
+			}
+			cls, why := "", ""
+			n := 0
+			for _, caller := range g.p.ModFuncs {
+				if isTestFile(g.p.Fset, caller.Pos()) {
+					continue
+				}
+				for _, in := range findCalls(caller, commonNameOfFn(fn)) {
+					cc := callCommon(in)
+					if cc.StaticCallee() != fn || idx >= len(cc.Args) {
+						continue
+					}
+					n++
+					g.depth++
+					cc2, w2 := g.rootClass(cc.Args[idx], in, computeFacts(caller))
+					g.depth--
+					if cls == "" {
+						cls, why = cc2, w2+" (at call from "+fnName(caller)+")"
+					} else if cls != cc2 {
+						return "unknown", "helper " + fnName(fn) + " is called with a " + cls + " state and with a " + cc2 + " state (from " + fnName(caller) + "): a write inside it reaches both"
+					}
+				}
+			}
+			if n == 0 {
+				return "unknown", "state object is a parameter of a function with no static caller"
+			}
+			return cls, why
 		case *ssa.Phi:
 			cls, why := "", ""
 			for _, e := range x.Edges {
